@@ -5,10 +5,14 @@ corr   : (a) Lean `validate` outcome (ok / error kind / assert / malformed) vs t
          (b) Lean key-function models (partial_reduce groups, repeat, concat/_array_slices, region store, scan increment,
              stack) vs the real `back_key_function` of the op found in the plan, on every block of the output grid.
 oracle : independent of Lean.  For exprgen programs (NumPy evaluates them by construction) and for family-specific
-         edge / invalid parameter streams: build -> plan (`cubed.plan`, `FinalizedPlan.validate`) -> execute under
-         {single-threaded, threads} x {optimize_graph on/off, simple_optimize_dag, fuse_all_optimize_dag}; record
-         (phase, exception type).  Allowed: success, or ValueError/TypeError/NotImplementedError/IndexError during build or
-         plan.  Everything else is a failure; failing programs are shrunk (exprgen.shrink) and classified on the shrunk case.
+         edge / invalid parameter streams (filtered by a NumPy shadow where NumPy has a counterpart): build -> plan
+         (`cubed.plan`, `FinalizedPlan.validate`) -> execute under {single-threaded, threads} x {optimize_graph on/off,
+         simple_optimize_dag, fuse_all_optimize_dag}; record (phase, exception type).  Allowed: success, or
+         ValueError/TypeError/NotImplementedError/IndexError during build or plan.  Everything else is a failure; failing
+         programs are shrunk (exprgen.shrink) and classified on the shrunk case by `classify` (one classifier per listed
+         defect: call site of the failing task + triggering condition).  Triggers of defects that were repaired by `fix:`
+         commits are fixed regression cases (`oracle_regressions`): they must be refused at build, or complete with the
+         right content.
 """
 from __future__ import annotations
 
@@ -571,9 +575,15 @@ def g_index(rng):
             key.append(1.5); req.append("o"); ax += 1
     # an array index next to a slice with a step other than 1 is refused (merge_chunks / flip chunk mismatch: ValueError,
     # not modelled): unit steps then
+    stepped = any(isinstance(rq, tuple) and key[j].step not in (None, 1) for j, rq in enumerate(req))
     for j, rq in enumerate(req):
         if isinstance(rq, tuple):
             sl, n = key[j], rq[1]
+            if stepped and sl.step in (None, 1):
+                # a stepped (or negative-step) slice makes index() call merge_chunks, which refuses (ValueError, not modelled) when another
+                # axis was shortened to a length that does not divide its chunk size: keep the other axes whole
+                sl = slice(None)
+                key[j] = sl
             if narr >= 1 and sl.step is not None and sl.step != 1:
                 lo_, hi_ = sorted([sl.start or 0, sl.stop if sl.stop is not None else n])
                 sl = slice(lo_, hi_, 1)
